@@ -164,9 +164,26 @@ def _decode(repo, rep):
     f = repo.func(COMP + "ExpressionTransform.visit_Interpolation")
     calls = [n for n in ast.walk(f.node) if isinstance(n, ast.Call)
              and src(n.func) == "Interpolator"]
+    ic = repo.cls("chameleon.nodes.Interpolation")
+    dflt = ic.attrs.get("decode_htmlentities")
     ok = len(calls) == 1 and any(
-        k.arg == "decode_htmlentities" and isinstance(k.value, ast.Constant)
-        and k.value.value is True for k in calls[0].keywords)
+        k.arg == "decode_htmlentities" and (
+            (isinstance(k.value, ast.Constant) and k.value.value is True) or
+            (src(k.value) == "node.decode_htmlentities" and
+             isinstance(dflt, ast.Constant) and dflt.value is True))
+        for k in calls[0].keywords)
+    # markup contexts never switch it off
+    for nm in ("visit_comment", "visit_cdata"):
+        vv = L.emission(repo, PROG + nm).value
+        for w in A.walk(vv):
+            if isinstance(w, A.NodeV) and w.kind == "Interpolation" and \
+                    "decode_htmlentities" in w.kwargs:
+                ok = False
+    at = L.emission(repo, PROG + "_create_attributes_nodes").value
+    for w in A.walk(at):
+        if isinstance(w, A.NodeV) and w.kind == "Interpolation" and \
+                "decode_htmlentities" in w.kwargs:
+            ok = False
     rep.check(ok, "R06.3", f.qualname, "markup interpolation decodes "
               "character entities in expressions", construct="decode-flag",
               where=L.where(f))
